@@ -76,7 +76,8 @@ class Sched(Engine):
         gens = [self.gen_genparams(rng, n) for _ in range(ngen)]
         acts = []
         # swarm: per-run action weights
-        w = {'start': 4, 'advance': 8, 'close': 1.5, 'abandon': 1.5, 'enter': 2, 'exit': 2, 'read': 3, 'write': 3}
+        w = {'start': 4, 'advance': 8, 'close': 1.5, 'abandon': 1.5, 'enter': 2, 'exit': 2, 'read': 3, 'write': 3,
+             'read_openfail': 0.8}
         for k in list(w):
             if rng.random() < 0.2:
                 w[k] = 0
@@ -91,6 +92,8 @@ class Sched(Engine):
                 acts.append({'act': a})
             elif a == 'read':
                 acts.append({'act': 'read', 'idx': self.gen_idx(rng, n)})
+            elif a == 'read_openfail':
+                acts.append({'act': 'read_openfail', 'idx': self.gen_idx(rng, n), 'errno': rng.choice([24, 13, 5])})
             else:
                 acts.append({'act': 'write', 'idx': self.gen_idx(rng, n), 'v': rng.randint(0, 100)})
         # finishing order of the survivors: a seeded permutation of actors with a way of finishing
@@ -185,8 +188,8 @@ class _SState:
         self.probes[n] = self.probes.get(n, 0) + 1
 
     def stats(self):
-        return {'steps': self.steps, 'probes': self.probes, 'faults': {}, 'transitions': sorted(self.transitions),
-                'extra': {'ownership_patterns': sorted(self.patterns)}}
+        return {'steps': self.steps, 'probes': self.probes, 'faults': getattr(self, 'faults', {}),
+                'transitions': sorted(self.transitions), 'extra': {'ownership_patterns': sorted(self.patterns)}}
 
     def live(self):
         return [f'g{g}' for g in self.gens] + [f'c{i}' for i in range(len(self.ctx))]
@@ -326,6 +329,35 @@ class _SState:
             if self.live():
                 self.probe('read_while_actor_live')
             return 'read'
+        if act == 'read_openfail':
+            # fault: the data file cannot be opened for this one access (EMFILE / EACCES / EIO).  Only an access
+            # that has to open the map can fail; the access may raise, nothing else may be disturbed.
+            if self.live():
+                return 'skip_map_already_open'
+            import darr.array as DA
+            idx = self.resolve(a['idx'])
+            datafile = os.path.join(self.path, 'arrayvalues.bin')
+            fired = []
+
+            def faulty_open(file=None, *args, **kw):
+                if not fired and os.path.realpath(str(file)) == os.path.realpath(datafile):
+                    fired.append(1)
+                    raise OSError(a['errno'], 'injected failure to open the data file')
+                return open(file, *args, **kw)
+            DA.open = faulty_open        # module-level name shadows the builtin inside darr.array only
+            try:
+                try:
+                    A[idx]
+                    out = 'read_ok_fault_not_reached'
+                except OSError:
+                    out = 'read_failed'
+            finally:
+                del DA.open
+            if fired:
+                self.probe('open_fault_fired')
+                self.faults = getattr(self, 'faults', {})
+                self.faults['open_fails'] = self.faults.get('open_fails', 0) + 1
+            return out
         if act == 'write':
             if self.mode == 'r':
                 return 'skip_readonly'
